@@ -10,6 +10,8 @@ import (
 	"testing"
 
 	lc "github.com/blinklabs-io/gouroboros/consensus"
+	"github.com/blinklabs-io/gouroboros/ledger/common"
+	"github.com/blinklabs-io/gouroboros/vrf"
 	"golang.org/x/crypto/blake2b"
 	"pgregory.net/rapid"
 
@@ -632,6 +634,172 @@ type reporter func(key, what string, cs any) bool
 type c37 struct {
 	rec     *evi.Recorder
 	maxPrec uint
+	long    []*longLived
+}
+
+// longLived holds the objects of the consensus package that outlive a single
+// eligibility decision: a HeaderValidator and a BlockBuilder per mode for one
+// active-slot coefficient. They are created once per test run and fed with the
+// stakes of many different cases, so any state they keep between decisions is
+// exposed.
+type longLived struct {
+	f          *big.Rat
+	validators [2]*lc.HeaderValidator
+	builders   [2]*lc.BlockBuilder
+	signers    [2]*mutSigner
+	proofs     [2][]vrfTuple // real VRF certificates per mode (the validator verifies them)
+}
+
+type mutSigner struct{ out []byte }
+
+func (s *mutSigner) Prove([]byte) ([]byte, []byte, error) { return make([]byte, 80), s.out, nil }
+func (s *mutSigner) PublicKey() []byte                    { return make([]byte, 32) }
+
+type vrfTuple struct {
+	slot               uint64
+	nonce              []byte
+	key, proof, output []byte
+}
+
+func newLongLived(f *big.Rat, nTuples int) (*longLived, error) {
+	l := &longLived{f: f}
+	for i, mode := range thModes {
+		cfg := lc.NetworkConfig{ActiveSlotCoeff: common.GenesisRat{Rat: new(big.Rat).Set(f)}, SlotsPerKESPeriod: 129600, MaxKESEvolutions: 62}
+		l.validators[i] = lc.NewHeaderValidatorWithMode(cfg, mode)
+		l.signers[i] = &mutSigner{}
+		l.builders[i] = lc.NewBlockBuilderWithMode(l.signers[i], nil, nil, nil, nil, new(big.Rat).Set(f), mode)
+		for t := 0; t < nTuples; t++ {
+			seed := bytes.Repeat([]byte{byte(17*t + 3*i + 1)}, 32)
+			pk, sk, err := vrf.KeyGen(seed)
+			if err != nil {
+				return nil, err
+			}
+			tu := vrfTuple{slot: uint64(1000 + 37*t), nonce: bytes.Repeat([]byte{byte(t + 1)}, 32), key: pk}
+			var input []byte
+			if i == 0 {
+				input, err = vrf.MkInputVrf(int64(tu.slot), tu.nonce)
+			} else {
+				input, err = vrf.MkSeedTPraos(int64(tu.slot), tu.nonce, vrf.SeedL())
+			}
+			if err != nil {
+				return nil, err
+			}
+			if tu.proof, tu.output, err = vrf.Prove(sk, input); err != nil {
+				return nil, err
+			}
+			l.proofs[i] = append(l.proofs[i], tu)
+		}
+	}
+	return l, nil
+}
+
+// leadershipRejected reports whether the validator's result carries the
+// leadership error; vrfOK is false when the VRF certificate itself was not
+// accepted (then the leadership check did not run).
+func leadershipRejected(res *lc.ValidateResult) (rejected, vrfOK bool) {
+	if res == nil {
+		return false, false
+	}
+	for _, e := range res.Errors {
+		if e != nil && bytes.Contains([]byte(e.Error()), []byte("leadership threshold")) {
+			rejected = true
+		}
+	}
+	return rejected, res.VrfOutput != nil
+}
+
+// checkLongLived asks the long-lived validator and block builder about the
+// stakes A = (pool,total), B = a neighbour sharing the pool or the total stake,
+// a failing input (total stake 0), and A again. Every decision must equal
+// "leader value < threshold" with the threshold decided by the oracle for
+// exactly these arguments.
+func (h *c37) checkLongLived(rt *rapid.T, c *thCase, rep reporter, fatal func(string)) {
+	rec := h.rec
+	l := h.long[rapid.IntRange(0, len(h.long)-1).Draw(rt, "longLived")]
+	type st struct{ pool, total uint64 }
+	a := st{c.Pool, c.Total}
+	var b st
+	switch rapid.IntRange(0, 3).Draw(rt, "longNeighbour") {
+	case 0: // same pool stake, full sigma
+		b = st{a.pool, max(a.pool, 1)}
+	case 1: // same pool stake, much larger total
+		b = st{a.pool, math.MaxUint64}
+	case 2: // same total, other pool
+		b = st{a.total/2 + 1, a.total}
+	default:
+		p, t, _ := genStake(rt)
+		b = st{p, t}
+	}
+	var T [2][2]*big.Int
+	for si, s := range []st{a, b} {
+		vc := &thCase{Pool: s.pool, Total: s.total, F: new(big.Rat).Set(l.f), StakeClass: "long_lived", FClass: "long_lived"}
+		got, confirmed, _, _ := h.checkThreshold(vc, [2]bool{true, true}, rep, fatal)
+		for i := range thModes {
+			if confirmed[i] {
+				T[si][i] = got[i]
+			}
+		}
+	}
+	seq := []int{0, 1, -1, 0}
+	for step, si := range seq {
+		for i := range thModes {
+			if si < 0 {
+				// failing input between the real ones
+				_, _ = l.builders[i].CheckSlotLeadership(1, make([]byte, 31), a.pool, a.total) // bad nonce: error
+				tu := l.proofs[i][0]
+				_ = l.validators[i].ValidateHeader(&lc.ValidateHeaderInput{Slot: tu.slot, EpochNonce: tu.nonce, VrfKey: tu.key, VrfProof: tu.proof, VrfOutput: tu.output, PoolStake: a.pool, TotalStake: 0})
+				continue
+			}
+			s := []st{a, b}[si]
+			thr := T[si][i]
+			if thr == nil || s.pool == 0 {
+				continue
+			}
+			cs := map[string]any{"f": l.f.RatString(), "mode": thModeName[i], "pool": fmt.Sprint(s.pool), "total": fmt.Sprint(s.total),
+				"previous_pool": fmt.Sprint(a.pool), "previous_total": fmt.Sprint(a.total), "other_pool": fmt.Sprint(b.pool), "other_total": fmt.Sprint(b.total),
+				"step": step, "threshold_hex": thr.Text(16)}
+			// block builder with a steered output: TPraos exactly at the threshold, Praos pseudo-random
+			var out []byte
+			if i == 1 && thr.Cmp(pow2(512)) < 0 && step%2 == 0 {
+				out = bytes64(thr)
+			} else if i == 1 && thr.Sign() > 0 {
+				out = bytes64(new(big.Int).Sub(thr, bigOne))
+			} else {
+				out = rapid.SliceOfN(rapid.Byte(), 64, 64).Draw(rt, "longOut")
+			}
+			l.signers[i].out = out
+			want := leaderValue(out, i).Cmp(thr) < 0
+			res, err := l.builders[i].CheckSlotLeadership(uint64(100+step), make([]byte, 32), s.pool, s.total)
+			rec.Eval()
+			if err != nil || res == nil || res.Eligible != want || res.Threshold == nil || res.Threshold.Cmp(thr) != 0 {
+				cs["vrf_output"] = evi.Hex(out)
+				rep("history:BlockBuilder.CheckSlotLeadership:"+thModeName[i], fmt.Sprintf("long-lived block builder, step %d (pool=%d total=%d): result %+v err=%v, expected eligible=%v threshold=%s", step, s.pool, s.total, res, err, want, thr.Text(16)), cs)
+			}
+			// header validator with real VRF certificates
+			for ti := 0; ti < 2; ti++ {
+				tu := l.proofs[i][(step+ti+int(s.pool%7))%len(l.proofs[i])]
+				in := &lc.ValidateHeaderInput{Slot: tu.slot, EpochNonce: tu.nonce, VrfKey: tu.key, VrfProof: tu.proof, VrfOutput: tu.output, PoolStake: s.pool, TotalStake: s.total}
+				vres := l.validators[i].ValidateHeader(in)
+				rec.Eval()
+				rejected, vrfOK := leadershipRejected(vres)
+				if !vrfOK {
+					fatal("the harness-made VRF certificate was not accepted by the validator")
+					return
+				}
+				wantOK := leaderValue(tu.output, i).Cmp(thr) < 0
+				if rejected == wantOK {
+					cs["vrf_output"] = evi.Hex(tu.output)
+					rep("history:HeaderValidator.leadership:"+thModeName[i], fmt.Sprintf("long-lived header validator, step %d (pool=%d total=%d): leadership rejected=%v, but leader value < threshold is %v", step, s.pool, s.total, rejected, wantOK), cs)
+				}
+				if wantOK {
+					rec.Class("validator_leadership_accepted")
+				} else {
+					rec.Class("validator_leadership_rejected")
+				}
+			}
+		}
+	}
+	rec.Class("long_lived_sequences")
 }
 
 // checkThreshold runs the threshold oracle for one case (both modes). It
@@ -657,7 +825,9 @@ func (h *c37) checkThreshold(c *thCase, run [2]bool, rep reporter, fatal func(st
 		g, err := lc.CertifiedNatThresholdWithMode(c.Pool, c.Total, c.F, mode)
 		rec.Eval()
 		if c.F.Cmp(fCopy) != 0 {
-			fatal("library mutated the caller's activeSlotCoeff")
+			bad := ratStr(c.F)
+			c.F.Set(fCopy)
+			rep("argument-mutated:activeSlotCoeff", fmt.Sprintf("CertifiedNatThresholdWithMode changed the caller's activeSlotCoeff from %s to %s", ratStr(fCopy), bad), c.json())
 		}
 		cs := c.json()
 		cs["mode"] = thModeName[i]
@@ -680,6 +850,20 @@ func (h *c37) checkThreshold(c *thCase, run [2]bool, rep reporter, fatal func(st
 		if g == nil {
 			rep("nil-result:"+thModeName[i], "nil threshold with nil error", cs)
 			continue
+		}
+		if c.costTier() == 0 {
+			// the result must be the caller's to keep: overwrite the returned value, ask again,
+			// and require the same answer (a result aliasing library state, or any dependence
+			// on the previous call, shows up here)
+			keep := new(big.Int).Set(g)
+			g.Add(g, big.NewInt(0x5eed)).Neg(g)
+			g2, err2 := lc.CertifiedNatThresholdWithMode(c.Pool, c.Total, c.F, mode)
+			rec.Eval()
+			if err2 != nil || g2 == nil || g2.Cmp(keep) != 0 {
+				cs["first_hex"], cs["second"] = keep.Text(16), fmt.Sprint(g2, err2)
+				rep("history:second-call-differs:"+thModeName[i], fmt.Sprintf("the same call returned %s, then (after the caller overwrote the returned big.Int) %v err=%v", keep.Text(16), g2, err2), cs)
+			}
+			g = keep
 		}
 		got[i] = g
 		if o.want[i] == nil {
@@ -866,6 +1050,26 @@ func TestC37(t *testing.T) {
 		}
 	}
 
+	// after the error exits above a plain question must still get the plain answer
+	{
+		c := &thCase{Pool: 1, Total: 2, F: big.NewRat(3, 4), StakeClass: "after_error", FClass: "after_error"}
+		h.checkThreshold(c, [2]bool{true, true}, func(key, what string, cs any) bool { return rec.Violation("after-error:"+key, what, cs) }, fatalT)
+	}
+
+	// --- special values, deterministic: stakes around 2^63 and 2^64-1, sigma 0 and 1,
+	// perfect-power and power-of-two coefficients, f next to 0 and 1, and for each the
+	// leader values 00..00, ff..ff, T-1, T, T+1
+	h.sweepSpecial(part, parts, fatalT)
+
+	// --- long-lived objects
+	for _, f := range []*big.Rat{big.NewRat(1, 20), big.NewRat(1, 2), big.NewRat(3, 4)} {
+		l, err := newLongLived(f, 8)
+		if err != nil {
+			t.Fatalf("harness fault: %v", err)
+		}
+		h.long = append(h.long, l)
+	}
+
 	// --- generated cases
 	rec.Check(func(rt *rapid.T) {
 		c := genCase(rt, maxBits)
@@ -914,17 +1118,115 @@ func TestC37(t *testing.T) {
 
 		// --- monotonicity (metamorphic; library values only)
 		if tier == 0 || rapid.IntRange(0, 1+2*tier).Draw(rt, "monoCostly") == 0 {
-			h.checkMonotone(rt, c, got, &o, maxBits)
+			h.checkMonotone(rt, c, got, &o, maxBits, tier == 0 && rapid.IntRange(0, 5).Draw(rt, "judgeVariants") == 0, rep, fatal)
 		}
 
 		// --- eligibility
 		if tier == 0 || rapid.IntRange(0, 1+2*tier).Draw(rt, "eligCostly") == 0 {
 			h.checkEligibility(rt, c, run, got, confirmed, &o, tier)
 		}
+
+		// --- long-lived validator / block builder fed with this case's stakes
+		if tier == 0 && c.Pool > 0 && rapid.IntRange(0, 7).Draw(rt, "longLivedCase") == 0 {
+			h.checkLongLived(rt, c, rep, fatal)
+		}
 	})
 }
 
-func (h *c37) checkMonotone(rt *rapid.T, c *thCase, got [2]*big.Int, o *thOracle, maxBits int) {
+// sweepSpecial: deterministic special values (see TestC37).
+func (h *c37) sweepSpecial(part, parts int, fatal func(string)) {
+	rec := h.rec
+	rep := func(key, what string, cs any) bool { return rec.Violation("special:"+key, what, cs) }
+	const m63 = uint64(1) << 63
+	stakes := []uint64{0, 1, m63 - 1, m63, m63 + 1, math.MaxUint64}
+	two := func(n uint) *big.Rat { return new(big.Rat).SetFrac(bigOne, pow2(n)) }
+	fs := []*big.Rat{new(big.Rat), ratOne(), big.NewRat(1, 20), big.NewRat(1, 2), big.NewRat(3, 4),
+		two(64), new(big.Rat).Sub(ratOne(), two(64)), new(big.Rat).Sub(ratOne(), two(600))}
+	type sc struct {
+		pool, total uint64
+		f           *big.Rat
+	}
+	var cases []sc
+	for _, p := range stakes {
+		for _, t := range stakes {
+			if t == 0 {
+				continue
+			}
+			for _, f := range fs {
+				cases = append(cases, sc{p, t, f})
+			}
+		}
+	}
+	// exact roots with stakes beyond int64: sigma = 1/2, 1/3, 2/3, 1/4 as ratios of huge stakes
+	third := uint64(math.MaxUint64 / 3) // 0x5555555555555555, 3*third = 2^64-1
+	cases = append(cases,
+		sc{m63 / 2, m63, big.NewRat(3, 4)}, sc{m63, math.MaxUint64 - 1, big.NewRat(3, 4)}, // sigma = 1/2 (2^63 / (2^64-2)), 1-f = (1/2)^2
+		sc{third, math.MaxUint64, big.NewRat(26, 27)}, sc{2 * third, math.MaxUint64, big.NewRat(26, 27)}, // sigma = 1/3, 2/3, 1-f = (1/3)^3
+		sc{third, math.MaxUint64, new(big.Rat).Sub(ratOne(), two(768))},                               // 1-f = (2^-256)^3: 2^256*(1-f)^(1/3) = 1
+		sc{m63 / 2, math.MaxUint64 - 3, big.NewRat(3, 4)}, sc{(m63-1)/2 + 1, m63, big.NewRat(15, 16)}, // near-misses of the above
+		sc{m63 + 5, m63 + 5, big.NewRat(1, 2)}, sc{math.MaxUint64, m63 + 1, big.NewRat(1, 2)}, // sigma = 1 by equality / by the cap
+	)
+	nSpecial := 0
+	for idx, k := range cases {
+		if parts > 1 && idx%parts != part {
+			continue
+		}
+		c := &thCase{Pool: k.pool, Total: k.total, F: new(big.Rat).Set(k.f), StakeClass: "special", FClass: "special"}
+		got, confirmed, o, _ := h.checkThreshold(c, [2]bool{true, true}, rep, fatal)
+		nSpecial++
+		if c.F.Sign() > 0 && c.F.Cmp(ratOne()) < 0 && c.Pool > 0 && got[0] != nil {
+			rec.NonTrivial(fmt.Sprintf("special %d/%d f=%s", c.Pool, c.Total, c.F.RatString()), nil)
+		}
+		for i, mode := range thModes {
+			if o.src[i] != "" {
+				rec.Class("special_oracle:" + o.src[i])
+			}
+			if !confirmed[i] {
+				continue
+			}
+			T := got[i]
+			outs := [][]byte{make([]byte, 64), bytes.Repeat([]byte{0xff}, 64)}
+			if i == 1 {
+				for _, d := range []int64{-1, 0, 1} {
+					if x := new(big.Int).Add(T, big.NewInt(d)); x.Sign() >= 0 && x.Cmp(pow2(512)) < 0 {
+						outs = append(outs, bytes64(x))
+					}
+				}
+			}
+			for oi, out := range outs {
+				outCopy := append([]byte(nil), out...)
+				tCopy := new(big.Int).Set(T)
+				want := leaderValue(out, i).Cmp(T) < 0
+				cs := c.json()
+				cs["mode"], cs["vrf_output"], cs["threshold_hex"] = thModeName[i], evi.Hex(out), T.Text(16)
+				ok, err := lc.IsVRFOutputBelowThresholdWithMode(out, T, mode)
+				ok2, err2 := want, error(nil)
+				if oi%2 == 1 { // the composed predicate recomputes the threshold: every second output
+					ok2, err2 = lc.IsSlotLeaderFromComponentsWithMode(out, c.Pool, c.Total, c.F, mode)
+				}
+				rec.EvalN(2)
+				if err != nil || ok != want {
+					rep("eligibility:IsVRFOutputBelowThresholdWithMode:"+thModeName[i], fmt.Sprintf("got %v err=%v, expected %v", ok, err, want), cs)
+				}
+				if c.Pool > 0 && (err2 != nil || ok2 != want) {
+					rep("eligibility:IsSlotLeaderFromComponentsWithMode:"+thModeName[i], fmt.Sprintf("got %v err=%v, expected %v", ok2, err2, want), cs)
+				}
+				if !bytes.Equal(out, outCopy) || T.Cmp(tCopy) != 0 {
+					rep("argument-mutated:eligibility", "the eligibility predicate changed the caller's VRF output or threshold", cs)
+					T.Set(tCopy)
+				}
+				if want {
+					rec.Class("special_eligible:" + thModeName[i])
+				} else {
+					rec.Class("special_not_eligible:" + thModeName[i])
+				}
+			}
+		}
+	}
+	rec.SetExtra("n_special_cases", nSpecial)
+}
+
+func (h *c37) checkMonotone(rt *rapid.T, c *thCase, got [2]*big.Int, o *thOracle, maxBits int, judge bool, rep reporter, fatal func(string)) {
 	rec := h.rec
 	// sigma variant
 	p2, t2 := c.Pool, c.Total
@@ -974,15 +1276,40 @@ func (h *c37) checkMonotone(rt *rapid.T, c *thCase, got [2]*big.Int, o *thOracle
 			f2 = new(big.Rat)
 		}
 	}
-	for i, mode := range thModes {
+	// With judge set the two neighbours are themselves decided by the oracle (so a result
+	// that depends on the previous call - e.g. a memo missing one of its keys - is wrong
+	// against the reference, not merely "equal"); otherwise they are plain library calls.
+	var vS, vF [2]*big.Int
+	wanted := [2]bool{got[0] != nil, got[1] != nil}
+	if judge {
+		vS, _, _, _ = h.checkThreshold(&thCase{Pool: p2, Total: t2, F: new(big.Rat).Set(c.F), StakeClass: "variant", FClass: "variant"}, wanted, rep, fatal)
+		vF, _, _, _ = h.checkThreshold(&thCase{Pool: c.Pool, Total: c.Total, F: f2, StakeClass: "variant", FClass: "variant"}, wanted, rep, fatal)
+		rec.Class("mono_variants_judged_by_oracle")
+	} else {
+		for i, mode := range thModes {
+			if !wanted[i] {
+				continue
+			}
+			if t2 == 0 || libCallTooCostly(p2, t2, c.F, thK[i]) {
+				rec.Class("mono_variant_skipped_by_cost_guard")
+			} else if v, err := lc.CertifiedNatThresholdWithMode(p2, t2, c.F, mode); err == nil {
+				vS[i] = v
+				rec.Eval()
+			}
+			if libCallTooCostly(c.Pool, c.Total, f2, thK[i]) {
+				rec.Class("mono_variant_skipped_by_cost_guard")
+			} else if v, err := lc.CertifiedNatThresholdWithMode(c.Pool, c.Total, f2, mode); err == nil {
+				vF[i] = v
+				rec.Eval()
+			}
+		}
+	}
+	for i := range thModes {
 		if got[i] == nil {
 			continue
 		}
 		// sigma
-		if t2 == 0 || libCallTooCostly(p2, t2, c.F, thK[i]) {
-			rec.Class("mono_variant_skipped_by_cost_guard")
-		} else if v, err := lc.CertifiedNatThresholdWithMode(p2, t2, c.F, mode); err == nil && v != nil {
-			rec.Eval()
+		if v := vS[i]; v != nil {
 			le12 := sigmaLE(c.Pool, c.Total, p2, t2)
 			le21 := sigmaLE(p2, t2, c.Pool, c.Total)
 			bad := (le12 && got[i].Cmp(v) > 0) || (le21 && v.Cmp(got[i]) > 0)
@@ -1004,10 +1331,7 @@ func (h *c37) checkMonotone(rt *rapid.T, c *thCase, got [2]*big.Int, o *thOracle
 			}
 		}
 		// f
-		if libCallTooCostly(c.Pool, c.Total, f2, thK[i]) {
-			rec.Class("mono_variant_skipped_by_cost_guard")
-		} else if v, err := lc.CertifiedNatThresholdWithMode(c.Pool, c.Total, f2, mode); err == nil && v != nil {
-			rec.Eval()
+		if v := vF[i]; v != nil {
 			cmp := c.F.Cmp(f2)
 			bad := (cmp <= 0 && got[i].Cmp(v) > 0) || (cmp >= 0 && v.Cmp(got[i]) > 0)
 			switch {
@@ -1029,6 +1353,30 @@ func (h *c37) checkMonotone(rt *rapid.T, c *thCase, got [2]*big.Int, o *thOracle
 			}
 		}
 	}
+	if c.costTier() != 0 {
+		return
+	}
+	// Calls that fail or are degenerate, then the original question again: neither the
+	// neighbours above nor a failed call may leave anything behind.
+	_, _ = lc.CertifiedNatThresholdWithMode(c.Pool, c.Total, c.F, lc.ConsensusMode(7))     // unknown mode: error
+	_, _ = lc.CertifiedNatThresholdWithMode(c.Pool, c.Total, big.NewRat(3, 2), thModes[0]) // f > 1: documented error
+	_, _ = lc.CertifiedNatThresholdWithMode(c.Pool, 0, c.F, thModes[1])                    // total stake 0
+	_, _ = lc.IsSlotLeaderFromComponentsWithMode(make([]byte, 63), c.Pool, c.Total, c.F, thModes[0])
+	for i, mode := range thModes {
+		if got[i] == nil {
+			continue
+		}
+		again, err := lc.CertifiedNatThresholdWithMode(c.Pool, c.Total, c.F, mode)
+		rec.Eval()
+		if err != nil || again == nil || again.Cmp(got[i]) != 0 {
+			cs := c.json()
+			cs["mode"], cs["first_hex"], cs["again"] = thModeName[i], got[i].Text(16), fmt.Sprint(again, err)
+			cs["pool2"], cs["total2"] = fmt.Sprint(p2), fmt.Sprint(t2)
+			cs["f2_num_hex"], cs["f2_den_hex"] = f2.Num().Text(16), f2.Denom().Text(16)
+			rep("history:result-changed-after-other-calls:"+thModeName[i], fmt.Sprintf("threshold for pool=%d total=%d f=%s was %s; after calls with (pool=%d,total=%d), with f=%s and three failing calls it is %v err=%v", c.Pool, c.Total, ratStr(c.F), got[i].Text(16), p2, t2, ratStr(f2), again, err), cs)
+		}
+	}
+	rec.Class("original_reasked_after_neighbours_and_failing_calls")
 }
 
 func bytes64(x *big.Int) []byte {
@@ -1074,11 +1422,19 @@ func (h *c37) checkEligibility(rt *rapid.T, c *thCase, run [2]bool, got [2]*big.
 					outs = append(outs, bytes64(x))
 				}
 			}
+			// and the extreme leader values 0 and 2^512-1
+			if rapid.Bool().Draw(rt, "extremeOut") {
+				outs = append(outs, make([]byte, 64))
+			} else {
+				outs = append(outs, bytes.Repeat([]byte{0xff}, 64))
+			}
 		} else if T.BitLen() > 0 && T.BitLen() <= 256 {
 			// Praos: the hash cannot be inverted; draw a few more outputs so both outcomes occur
 			outs = append(outs, rapid.SliceOfN(rapid.Byte(), 64, 64).Draw(rt, "out2"))
 		}
+		thrSnap, fSnap := new(big.Int).Set(got[i]), new(big.Rat).Set(c.F)
 		for oi, out := range outs {
+			outSnap := append([]byte(nil), out...)
 			lv := leaderValue(out, i)
 			want := lv.Cmp(T) < 0
 			cs := c.json()
@@ -1140,6 +1496,11 @@ func (h *c37) checkEligibility(rt *rapid.T, c *thCase, run [2]bool, got [2]*big.
 						fmt.Sprintf("IsSlotLeaderWithMode with a real VRF key: result %+v err=%v, threshold %s", res, err, got[i].Text(16)), cs)
 				}
 				rec.Class("real_vrf_signer_elections")
+			}
+			if !bytes.Equal(out, outSnap) || got[i].Cmp(thrSnap) != 0 || c.F.Cmp(fSnap) != 0 {
+				rec.Fail(rt, "argument-mutated:eligibility", "an eligibility function changed the caller's VRF output, threshold or activeSlotCoeff", cs)
+				got[i].Set(thrSnap)
+				c.F.Set(fSnap)
 			}
 			if want {
 				rec.Class("eligible:" + thModeName[i])
